@@ -461,6 +461,8 @@ inductive DocumentedReason (d : Doc) (op : Op) (segs : List Text) : Err → Prop
       binding mixed into the attrpath family (ValueError; KeyError for `rm`) -/
   | attrpathFamily (e : Err) : (findAttrpathRoot d.target.setValues (segs.headD [])).isSome = true →
       (e = .value ∨ (op = .rm ∧ e = .key)) → DocumentedReason d op segs e
+  /-- `@…@name` asks for more enclosing `let` layers than the document has (ValueError) -/
+  | missingScopeLayer (depth : Nat) : depth > (collectScopeLayers d).length → DocumentedReason d op segs .value
 
 /-- `set` refuses an editable document only for a documented reason. -/
 theorem refusal_set (d : Doc) (hw : WF d) (p : Text) (segs : List Text) (v : Node)
@@ -661,5 +663,90 @@ theorem refusal_rm (d : Doc) (hw : WF d) (hcoh : Coh d.target) (p : Text) (segs 
                 injection hrun with h1 _; injection h1 with h1; subst h1
                 refine .rmMissingKey rfl ?_
                 rw [ht, ← hsplit, bindAt_snoc _ final _ parent hsub]; exact hf
+
+/-- A scope selector that reaches beyond the outermost `let` layer is refused (and the only layer `set`
+    creates by itself is the first one of a document that has none). -/
+theorem refusal_scope_set (d : Doc) (hed : d.noTarget = none) (p rest : Text) (depth : Nat) (v : Node)
+    (hs : splitScopeNpath p = .ok (some (depth, rest)))
+    (hnc : ¬ ((collectScopeLayers d).isEmpty = true ∧ depth = 1))
+    (hd : depth > (collectScopeLayers d).length) (segs : List Text) :
+    setValue p (.one v) d = (.error .value, d) ∧ DocumentedReason d .set segs .value := by
+  refine ⟨?_, .missingScopeLayer depth hd⟩
+  have hnc' : ((collectScopeLayers d).isEmpty && depth == 1) = false := by
+    cases h1 : (collectScopeLayers d).isEmpty <;> cases h2 : (depth == 1) <;> simp_all
+  simp only [setValue, hed, hs, resolveTarget, hnc', Bool.false_eq_true, if_false, hd, if_true]
+
+theorem refusal_scope_rm (d : Doc) (hed : d.noTarget = none) (p rest : Text) (depth : Nat)
+    (hs : splitScopeNpath p = .ok (some (depth, rest)))
+    (hd : depth > (collectScopeLayers d).length) (segs : List Text) :
+    removeValue p d = (.error .value, d) ∧ DocumentedReason d .rm segs .value := by
+  refine ⟨?_, .missingScopeLayer depth hd⟩
+  simp only [removeValue, hed, hs, resolveTarget, hd, if_true]
+
+/-! ## Non-vacuity: a document with an explicit binding, an explicit nested set and a top-level attrpath
+family meets the hypotheses of every theorem above. -/
+
+/-- `{ a = 1; b = { c = 2; }; x.y = 3; }` as the parser builds it -/
+def docEx : Doc :=
+  let leafY : Node := .bind 8 "y".toList false (.atom "3".toList) [] []
+  let famX : Node := .bind 6 "x".toList true (.set 7 [leafY] [] true false) [] []
+  let bindC : Node := .bind 5 "c".toList false (.atom "2".toList) [] []
+  let bindB : Node := .bind 3 "b".toList false (.set 4 [bindC] [bindC] false false) [] []
+  let bindA : Node := .bind 2 "a".toList false (.atom "1".toList) [] []
+  { target := .set 1 [bindA, bindB, famX]
+      [bindA, bindB, .entry ["x".toList, "y".toList] leafY (some []) (some [])] true false, next := 9 }
+
+theorem docEx_wf : WF docEx := ⟨rfl, rfl, by decide, by decide, rfl, rfl⟩
+
+theorem docEx_coh : Coh docEx.target := by
+  intro a ha b hb h
+  simp only [docEx, occS, occSL, List.mem_cons, List.mem_append, List.not_mem_nil, or_false,
+    List.append_nil, List.nil_append] at ha hb
+  rcases ha with rfl | (rfl | rfl) | rfl <;> rcases hb with rfl | (rfl | rfl) | rfl <;>
+    first | rfl | (simp [setSid?] at h)
+
+example : ∃ d', setValue "a".toList (.one (.atom "5".toList)) docEx = (.ok (), d') ∧
+    specSet (denote docEx.target) ["a".toList] (.atom "5".toList) = some (denote d'.target) :=
+  set_plain_refines docEx docEx_wf "a".toList "a".toList _ rfl rfl (by
+    intro nm h
+    have h' : some (AttrTree.leaf (.atom "1".toList)) = some (AttrTree.leaf (.ident nm)) := h
+    simp at h')
+
+example : (setValue "b.e".toList (.one (.atom "5".toList)) docEx).1 = .ok () := rfl
+example : ∀ d', setValue "b.d.e".toList (.one (.atom "5".toList)) docEx = (.ok (), d') →
+    specSet (denote docEx.target) ["b".toList, "d".toList, "e".toList] (.atom "5".toList) =
+    some (denote d'.target) :=
+  set_nested_explicit_refines docEx docEx_wf "b.d.e".toList "b".toList "d".toList ["e".toList] _ rfl rfl
+    (by intro k hk; simp at hk; rcases hk with rfl | rfl <;> exact plainKey_ident _ (by decide))
+    (by decide)
+    (by intro nm h; cases (h : (none : Option AttrTree) = some _))
+
+example : (setValue "x.z".toList (.one (.atom "5".toList)) docEx).1 = .ok () := rfl
+example : ∀ d', setValue "x.z".toList (.one (.atom "5".toList)) docEx = (.ok (), d') →
+    specSet (denote docEx.target) ["x".toList, "z".toList] (.atom "5".toList) = some (denote d'.target) :=
+  set_attrpath_new_refines docEx docEx_wf "x.z".toList "x".toList "z".toList [] _ rfl rfl rfl (by decide)
+
+example : ∃ d', removeValue "x.y".toList docEx = (.ok (), d') ∧
+    specRemove (denote docEx.target) ["x".toList, "y".toList] true = some (denote d'.target) :=
+  rm_attrpath_refines docEx docEx_wf docEx_coh "x.y".toList ["x".toList, "y".toList] rfl rfl
+
+example : (removeValue "b.c".toList docEx).1 = .ok () := rfl
+example : ∀ d', removeValue "b.c".toList docEx = (.ok (), d') →
+    specRemove (denote docEx.target) ["b".toList, "c".toList] false = some (denote d'.target) :=
+  rm_nested_explicit_refines docEx docEx_wf "b.c".toList "b".toList "c".toList [] rfl rfl
+    (by intro k hk; simp at hk; subst hk; exact plainKey_ident _ (by decide))
+
+/-- pruning really happens: removing the only leaf of `x` removes `x`; removing the only binding of the
+    explicit set `b` leaves `b = { }` -/
+example : (denote (removeValue "x.y".toList docEx).2.target).kids.map (·.1) = ["a".toList, "b".toList] := rfl
+example : (denote (removeValue "b.c".toList docEx).2.target).kids.map (·.1) =
+    ["a".toList, "b".toList, "x".toList] := rfl
+
+/-- a refusal and its documented reason -/
+example : (setValue "a.q".toList (.one (.atom "5".toList)) docEx).1 = .error .value := rfl
+example : ∀ e d', setValue "a.q".toList (.one (.atom "5".toList)) docEx = (.error e, d') →
+    DocumentedReason docEx .set ["a".toList, "q".toList] e :=
+  refusal_set docEx docEx_wf "a.q".toList ["a".toList, "q".toList] (.atom "5".toList) rfl
+    (by intro k hk; simp at hk; subst hk; exact plainKey_ident _ (by decide))
 
 end Nima.C05
